@@ -383,7 +383,7 @@ def gen_scenario(rng, profile):
             nreq_total += 1
         conns.append(reqs)
     scn = {'harness': 'srv', 'frontend': kind, 'framing': framing, 'single': single, 'units': units,
-           'opts': opts, 'conns': conns, 'cpu_step': rng.choice([1e-5, 1e-4, 1e-3]),
+           'opts': opts, 'conns': conns, 'cpu_step': rng.choice([2e-6, 1e-5, 5e-5]),
            'sched': {'tail_seed': rng.randrange(1 << 30)},
            'settle': max(1.0, 4 * serial_timeout)}
     if rng.random() < profile.get('dsfault_rate', 0.0):
@@ -405,23 +405,24 @@ def derive(scn):
                 fr = codec.frame(framing, r['u'], bytes.fromhex(r['pdu']), tid=r['tid'], pid=r.get('pid', 0))
             if r.get('join') and cur is not None:
                 cur['data'] += fr
+                cur['reqs'].append(i)
                 continue
             cuts = sorted(set(x for x in (r.get('cuts') or []) if 0 < x < len(fr)))
             if not cuts:
-                cur = {'t': r['at'], 'c': c, 'i': i, 'data': fr}
+                cur = {'t': r['at'], 'c': c, 'i': i, 'data': fr, 'reqs': [i]}
                 events.append(cur)
             else:
                 pos = 0
                 gap = r.get('cutgap', 0.0)
                 for j, x in enumerate(cuts + [len(fr)]):
-                    cur = {'t': r['at'] + j * gap, 'c': c, 'i': i, 'data': fr[pos:x]}
+                    cur = {'t': r['at'] + j * gap, 'c': c, 'i': i, 'data': fr[pos:x], 'reqs': [i]}
                     events.append(cur)
                     pos = x
     events.sort(key=lambda e: (e['t'], e['c'], e['i']))
     dels = []
     prev = 0.0
     for e in events:
-        dels.append({'c': e['c'], 'hex': e['data'].hex(), 'gap': round(e['t'] - prev, 9)})
+        dels.append({'c': e['c'], 'hex': e['data'].hex(), 'gap': round(e['t'] - prev, 9), 'reqs': e['reqs']})
         prev = e['t']
     h = {k: v for k, v in scn.items() if k != 'conns'}
     h['conns'] = len(scn['conns'])
@@ -483,6 +484,27 @@ class Analysis(object):
             pend.append(lst)
         hostile = set(scn.get('hostile') or [])
         self.unsolicited = []
+        # when did the (last piece of the) frame of each request reach the server?
+        try:
+            per_conn = {}
+            for d in derive(scn)['deliveries']:
+                per_conn.setdefault(d['c'], []).append(d['reqs'])
+            raw_index = {}
+            for c, reqs in enumerate(scn['conns']):
+                n = 0
+                for i, r in enumerate(reqs):
+                    if r.get('raw') is None:
+                        raw_index[(c, i)] = n
+                        n += 1
+            for c, groups in per_conn.items():
+                seqs = [sq for (sq, _) in res.inputs.get(c, [])]
+                for g, sq in zip(groups, seqs):
+                    for i in g:
+                        n = raw_index.get((c, i))
+                        if n is not None and c < len(pend) and n < len(pend[c]):
+                            pend[c][n]['delivered_seq'] = sq
+        except Exception:
+            pass
         ptr = [0] * len(pend)
         flat = [q for lst in pend for q in lst]
         # ---- walk executions in the order they happened
@@ -495,6 +517,8 @@ class Analysis(object):
             def fits(q):
                 if q['pdu'] != e['pdu']:
                     return False
+                if q.get('delivered_seq') is not None and q['delivered_seq'] > e['seq']:
+                    return False        # not even received yet when this execution happened
                 if framing != 'tls' and e['unit_id'] is not None and q['u'] != e['unit_id']:
                     return False
                 if framing == 'tcp' and q['tid'] != e['tid']:
@@ -546,8 +570,14 @@ class Analysis(object):
                                              'effect_ok': (after == want) if acc is not None else (after == prev_dump),
                                              'modelled': acc is not None})
                 else:
-                    self.add('exec-unsolicited', 'executed a request that no connection sent (or out of order): pdu=%s unit=%s tid=%s'
-                             % (e['pdu'].hex(), e['unit_id'], e['tid']), fc=e['pdu'][0] if e['pdu'] else None)
+                    sent = sum(1 for q in flat if q['pdu'] == e['pdu'] and (framing == 'tls' or e['unit_id'] is None or q['u'] == e['unit_id']))
+                    done_same = sum(1 for x in res.execs if x['pdu'] == e['pdu'] and x['unit_id'] == e['unit_id'] and x['seq'] <= e['seq'])
+                    per_req = len(hosted) if (bcast and e['unit_id'] == 0) else 1
+                    if done_same > sent * per_req:
+                        # executed more often than it was sent (identical requests on several
+                        # connections are interchangeable, so only the count is judged)
+                        self.add('exec-unsolicited', 'executed a request that no connection sent (or more often than sent): pdu=%s unit=%s tid=%s'
+                                 % (e['pdu'].hex(), e['unit_id'], e['tid']), fc=e['pdu'][0] if e['pdu'] else None)
                 prev_dump = after
                 self._resync(model, prev_dump)
                 continue
